@@ -601,6 +601,8 @@ def run(tier):
     rep.ob("C08.inert", not bad_callees, "nothing effectful is reachable from the scanner (no directive handling, item push, symbol setter, message, error or panic): skipped text — even unparsable text — has no effect" if not bad_callees else
            "while skipping, the scanner can reach %s" % sorted(bad_callees))
     define_value(P, rep)
+    import rules_C09
+    rules_C09.expansion_is_deferred(P, rep, "C08.macro-body|decided-late", "a conditional in a macro body is decided against the definitions of the whole file, one at top level against those in front of it: `.ifdef FOO` in a body called before `.define FOO` holds, and a `.define DONE` made by a body is not seen by a `.ifdef DONE` behind the call")
     if miss or "EndIf" not in scan:
         return rep
     malformed = malformed_classes(P)
